@@ -51,35 +51,102 @@ func vfc27Resolve(cfg []HashringConfig, tenant string) int {
 	return def
 }
 
-// vfc27Pattern builds a well-formed glob pattern from 1..3 pieces.
+// vfc27Pattern builds a well-formed glob pattern (filepath.Match dialect) from 1..4 pieces: wildcards
+// (* ?), classes, literals, and backslash escapes of special characters (\* \? \[ \\) and of ordinary
+// ones (\. \- \b ...). About a third of the patterns contain no wildcard or class at all: plain literals
+// and escaped literals such as acme\.corp, which are NOT equal to the only tenant name they match.
 func vfc27Pattern(rng *rand.Rand) string {
+	lit := []string{"a", "b", "t-", "0", "1", ":", "é", "team", "/", ".", "acme", "corp", "-"}
+	esc := []string{`\.`, `\*`, `\?`, `\[`, `\\`, `\-`, `\b`, `\c`, `\:`, `\]`, `\é`}
 	for {
 		var sb strings.Builder
-		k := 1 + rng.Intn(3)
+		k := 1 + rng.Intn(4)
+		noWild := rng.Intn(3) == 0
 		for i := 0; i < k; i++ {
-			switch rng.Intn(7) {
+			c := rng.Intn(10)
+			if noWild && c < 4 {
+				c = 4 + rng.Intn(6)
+			}
+			switch c {
 			case 0, 1:
 				sb.WriteString("*")
 			case 2:
 				sb.WriteString("?")
 			case 3:
-				sb.WriteString(vfkit.Pick(rng, []string{"[ab]", "[^a]", "[0-9]", "[a-c]"}))
+				sb.WriteString(vfkit.Pick(rng, []string{"[ab]", "[^a]", "[0-9]", "[a-c]", `[\]x]`, `[\*?]`}))
+			case 4, 5, 6:
+				sb.WriteString(vfkit.Pick(rng, esc))
 			default:
-				sb.WriteString(vfkit.Pick(rng, []string{"a", "b", "t-", "0", "1", ":", "é", "team", "/"}))
+				sb.WriteString(vfkit.Pick(rng, lit))
 			}
 		}
 		p := sb.String()
+		// well-formed only: filepath.Match scans the whole pattern for syntax errors (e.g. a trailing lone backslash)
 		if _, err := filepath.Match(p, "probe"); err == nil {
 			return p
 		}
 	}
 }
 
-// vfc27Instance produces a tenant name that the pattern is likely to match.
+// vfc27Instance walks the pattern and produces a tenant name it is meant to match: escapes are
+// unescaped, * ? and classes are filled in. (Whether it really matches is decided by filepath.Match in
+// the reference resolver, not here.)
 func vfc27Instance(rng *rand.Rand, p string) string {
-	rep := strings.NewReplacer("*", vfkit.Pick(rng, []string{"", "a", "ab0", "x-y"}), "?", vfkit.Pick(rng, []string{"a", "é", "0"}),
-		"[ab]", "b", "[^a]", "z", "[0-9]", "7", "[a-c]", "c")
-	return rep.Replace(p)
+	star := vfkit.Pick(rng, []string{"", "a", "ab0", "x-y", "."})
+	qm := vfkit.Pick(rng, []string{"a", "é", "0", "*"})
+	var sb strings.Builder
+	for i := 0; i < len(p); i++ {
+		switch p[i] {
+		case '\\':
+			if i+1 < len(p) {
+				i++
+				sb.WriteByte(p[i])
+			}
+		case '*':
+			sb.WriteString(star)
+		case '?':
+			sb.WriteString(qm)
+		case '[':
+			j := i + 1
+			for j < len(p) && (p[j] != ']' || p[j-1] == '\\') {
+				j++
+			}
+			switch cls := p[i:min(j+1, len(p))]; cls {
+			case "[ab]":
+				sb.WriteString("b")
+			case "[^a]":
+				sb.WriteString("z")
+			case "[0-9]":
+				sb.WriteString("7")
+			case "[a-c]":
+				sb.WriteString("c")
+			case `[\]x]`:
+				sb.WriteString(vfkit.Pick(rng, []string{"]", "x"}))
+			default:
+				sb.WriteString(vfkit.Pick(rng, []string{"*", "?"}))
+			}
+			i = j
+		default:
+			sb.WriteByte(p[i])
+		}
+	}
+	return sb.String()
+}
+
+// vfc27NearMiss changes one byte of a name (or drops / adds one), for tenants that almost match.
+func vfc27NearMiss(rng *rand.Rand, t string) string {
+	if t == "" {
+		return "x"
+	}
+	i := rng.Intn(len(t))
+	switch rng.Intn(3) {
+	case 0:
+		return t[:i] + t[i+1:]
+	case 1:
+		return t[:i] + vfkit.Pick(rng, []string{"-", "x", "\\", "."}) + t[i+1:]
+	default:
+		return t[:i] + vfkit.Pick(rng, []string{"\\", "x", "."}) + t[i:]
+	}
 }
 
 func vfc27Name(rng *rand.Rand) string {
@@ -162,16 +229,18 @@ func vfc27Gen(rng *rand.Rand) vfc27Case {
 		add(t)
 	}
 	for _, p := range patterns {
-		add(p)
+		add(p) // the raw pattern text as a tenant name
+		inst := vfc27Instance(rng, p)
+		add(inst) // the unescaped / filled-in text
 		add(vfc27Instance(rng, p))
-		add(vfc27Instance(rng, p))
+		add(vfc27NearMiss(rng, inst))
 	}
 	for i := 0; i < 6; i++ {
 		add(vfc27Name(rng))
 	}
 	c.tenants = vfkit.Perm(rng, c.tenants)
-	if len(c.tenants) > 16 {
-		c.tenants = c.tenants[:16]
+	if len(c.tenants) > 20 {
+		c.tenants = c.tenants[:20]
 	}
 	return c
 }
@@ -196,8 +265,8 @@ func vfc27RingOf(e Endpoint) int {
 func TestVF_C27(t *testing.T) {
 	r := vfkit.Start(t, "C27")
 	defer r.Finish()
-	r.Rule("case = list of 1..5 hashring configs, each exact (matcher type set or unset) / glob (well-formed patterns built from * ? [..] and literals) / default (no tenant list), with overlapping names and patterns, " +
-		"pairwise disjoint endpoint names (the endpoint identifies the ring), hashmod (1 in 12: ketama); up to 16 tenants: listed names, names equal to patterns, instances of patterns, alphabet strings; " +
+	r.Rule("case = list of 1..5 hashring configs, each exact (matcher type set or unset) / glob (well-formed filepath.Match patterns built from * ? [..] literals and backslash escapes of special and ordinary characters; a third of them without any wildcard, e.g. acme\\.corp) / default (no tenant list), with overlapping names and patterns, " +
+		"pairwise disjoint endpoint names (the endpoint identifies the ring), hashmod (1 in 12: ketama); up to 20 tenants: listed names, the raw pattern texts, the unescaped / filled-in texts of the patterns, near misses of those, alphabet strings; " +
 		"oracle: the ring serving GetN(tenant) equals the reference resolver's choice (first entry whose tenant list matches exactly / by filepath.Match, else first entry without tenants, else an error), " +
 		"on a cold cache, on the repeated call, and for 8 goroutines resolving all tenants concurrently on a second cold ring; race detector on; " +
 		"distinct = configuration; non-trivial = >=2 entries and >=2 different rings (or ring and error) chosen among the tenants")
